@@ -174,6 +174,17 @@ pub fn case_for(seed: u64, tier: Tier, run: u64) -> Case {
         kn.max_blocks = 0;
     }
     let mut sessions: Vec<SessionCase> = (0..ns).map(|_| gen_session_case(&mut rng, curve, &kn)).collect();
+    // one pair of Pedersen bases for the whole batch: default, or caller-chosen
+    // (value base, blinding base, or both)
+    let batch_bases = match below(&mut rng, 6) {
+        0 => Bases::Seeded(rng.next_u64()),
+        1 => Bases::SeededValue(rng.next_u64()),
+        2 => Bases::SeededBlinding(rng.next_u64()),
+        _ => Bases::Default,
+    };
+    for s in sessions.iter_mut() {
+        s.st.bases = batch_bases.clone();
+    }
     let mut wfaults: Vec<Option<WFault>> = vec![None; ns];
     let mut members: Vec<Member> = (0..ns).map(|i| Member { stmt: i, proof: i, tamper: Tamper::None }).collect();
     let mut label = "all-honest".to_string();
@@ -300,6 +311,9 @@ pub fn case_for(seed: u64, tier: Tier, run: u64) -> Case {
     }
     if gate_free {
         label = format!("{}+all-gate-free", label);
+    }
+    if batch_bases != Bases::Default {
+        label = format!("{}+custom-bases", label);
     }
     let need = sessions.iter().map(|s| shape_of(&s.st).3).max().unwrap_or(1);
     let mut cap = gen_cap_history(&mut rng, need);
